@@ -9,6 +9,7 @@ from ..absint import Interp, Hooks, State, K, Sym, Obj, Exc, NONE, ListVal, Func
 from ..report import Check
 from .. import util
 from .common import ForkHooks, labels_of, check_bool_fold, _bool_of_result
+from .common import check_zero_is_a_value
 
 FL = 'exactly_lib.impls.types.files_source.impl.file_list'
 FM = 'exactly_lib.impls.types.files_matcher.models'
@@ -46,6 +47,10 @@ def check(c: Check):
     clause_h(c)
     clause_j(c)
     clause_k(c)
+    # l: depth limits - 0 is a limit, not "no limit"
+    check_zero_is_a_value(c, 'C15-l', ['exactly_lib.impls.types.files_matcher.models',
+                                       'exactly_lib.impls.types.file_matcher.impl.dir_contents'], 4,
+                          '`-min-depth 0` / `-max-depth 0` are limits, not "no limit"')
     from .common import sweep_records
     sweep_records(c, 'C15-rec', ['exactly_lib.impls.file_properties', 'exactly_lib.impls.types.files_matcher', 'exactly_lib.impls.types.file_matcher', 'exactly_lib.impls.types.files_source'], floor=3)
     from .common import check_application_purity
@@ -746,7 +751,10 @@ def clause_k(c: Check):
 
         class HX(Hooks):
             def inline(self, fd, st_):
-                return fd.cls is cls and fd is not d
+                # the maker's own helpers, and helper functions of the file-maker package (a creation primitive moved
+                # into a shared helper is still the maker's creation)
+                return (fd.cls is cls and fd is not d) or (
+                    fd.cls is None and fd.module.name.startswith(U.rsplit('.', 1)[0] + '.') and not fd.is_generator)
 
         pth = d.positional_params()[1].arg
         exclusive = True
